@@ -380,6 +380,76 @@ func RunC15(tier string) int {
 			"depth_planned": pl.depth, "states": st.States, "transitions": st.Transitions, "terminal": st.Terminal, "capped": st.Capped})
 		fmt.Printf("  plan format=%v uid=%d alphabet=%d depth=%d/%d: transitions=%d terminal=%d capped=%v\n", tar.Format(pl.format), pl.uid, len(alpha), st.Depth, pl.depth, st.Transitions, st.Terminal, st.Capped)
 	}
+	// long archives: 13-21 directory entries at mixed depths in scrambled orders, one directory recorded
+	// twice with different mode and time (anything that re-orders the deferred directory work, e.g. a
+	// sort that is only stable for short inputs, needs more entries than the BFS depth reaches)
+	if !time.Now().After(deadline) {
+		T2 := tarx.BaseTime.Add(36*time.Hour + 500*time.Millisecond).UnixNano()
+		var pool24 []string
+		for i := 0; i < 8; i++ {
+			pool24 = append(pool24, fmt.Sprintf("n%d/", i), fmt.Sprintf("n%d/m/", i), fmt.Sprintf("n%d/m/k/", i))
+		}
+		var longs []C15Arg
+		maxT := 16
+		if thorough {
+			maxT = 20
+		}
+		for _, stride := range []int{1, 5, 7, 11} {
+			for T := 12; T <= maxT; T++ {
+				for i := 0; i < T; i++ {
+					for j := i + 1; j <= T; j++ {
+						if !thorough && (i+j+stride)%3 != 0 {
+							continue
+						}
+						var es []tarx.Entry
+						for k := 0; k < T; k++ {
+							e := tarx.Entry{Name: pool24[(k*stride+3)%24], Kind: "dir"}
+							if k == i {
+								e.Mode, e.MTime = 0700, T2
+							}
+							es = append(es, e)
+						}
+						dup := tarx.Entry{Name: es[i].Name, Kind: "dir", Mode: 0750}
+						es = append(es[:j], append([]tarx.Entry{dup}, es[j:]...)...)
+						longs = append(longs, C15Arg{Entries: es, Format: int(tar.FormatPAX), UID: 0})
+					}
+				}
+			}
+		}
+		pool, ok := pools[0]
+		if !ok {
+			pool = core.NewPool(0)
+			pools[0] = pool
+		}
+		okc := 0
+		pool.Map("c15", len(longs), func(i int) any { return longs[i] }, func(i int, r core.Result) {
+			var out C15Out
+			core.MustOut(r, &out)
+			rep.Evaluations++
+			desc := fmt.Sprintf("format=PAX uid=0 long archive [%s] err=%q", tarx.Names(longs[i].Entries), out.Err)
+			switch {
+			case out.Panic != "":
+				rep.Violation("slug.Unpack/panic", desc+" panic: "+out.Panic, "c15", longs[i])
+			case out.BuildErr != "" || out.Undefined != "" || out.MustFail != "":
+				rep.NoVerdict++
+			case out.Err != "":
+				rep.Outcome("long-archive-error") // reported below through Mismatch when the result was prescribed
+			default:
+				okc++
+				rep.Outcome("long-archive-compared")
+				rep.Nontrivial(out.Canon)
+			}
+			if len(out.Mismatch) > 0 {
+				rep.Violation("slug.Unpack/differs-from-sequential-reading/"+mismatchClass(out.Mismatch), desc+" mismatches: "+strings.Join(out.Mismatch, "; "), "c15", longs[i])
+			}
+		})
+		rep.States += len(longs)
+		rep.Transitions += len(longs)
+		rep.Extra["long_archives"] = map[string]any{"archives": len(longs), "compared": okc, "entries": fmt.Sprintf("13-%d", maxT+1)}
+		fmt.Printf("  long archives: %d (compared %d)\n", len(longs), okc)
+	} else {
+		rep.Exhaustive = false
+	}
 	{
 		st := &mapOrdStats{}
 		for _, uid := range []int{0, 65534} {
@@ -395,7 +465,7 @@ func RunC15(tier string) int {
 	}
 	rep.Extra["plans"] = planStats
 	rep.Rule = "BFS (no state merging: the history is the state) over well-formed entry sequences × tar format × uid; each prefix is unpacked by the real code and compared with a sequential reference interpreter " +
-		"(ref/untar) fed by an independent archive/tar decode of the same bytes. Non-trivial = success with a prescribed result; distinct by resulting tree incl. modes and mtimes."
+		"(ref/untar) fed by an independent archive/tar decode of the same bytes; plus long archives of 13-21 directory entries (mixed depths, four scrambled orders, one directory recorded twice with different mode and time at every pair of positions). Non-trivial = success with a prescribed result; distinct by resulting tree incl. modes and mtimes."
 	rep.Assumptions = []string{"type change at one path, an entry below a link, and a link entry at an existing path are not prescribed by the property (only no-crash)", "modes limited to 0000-0777; link timestamps not compared"}
 	return rep.Finish()
 }
